@@ -92,29 +92,49 @@ void sim_register_region(const void *base, size_t len, long src, long off)
 }
 void sim_clear_regions(void) { nregions = 0; }
 
-/* ---- heap ledger: block id <-> address ---- */
-struct blk { void *p; long id; };
+/* ---- heap ledger: block id <-> address, with a canary zone after every block ---- */
+#define CANARY 64
+struct blk { void *p; long id; size_t n; };
 static struct blk *blks = NULL;
 static size_t nblks = 0, capblks = 0;
 
-static void blk_add(void *p, long id)
+static void heap_flag(const char *what)
+{
+  CB(f, "sim_flag");
+  caml_callback(*f, caml_copy_string(what));
+}
+static void canary_set(void *p, size_t n) { memset((unsigned char *) p + n, 0xA5, CANARY); }
+static void canary_check(void *p, size_t n)
+{
+  const unsigned char *c = (const unsigned char *) p + n;
+  for (size_t i = 0; i < CANARY; i++) {
+    if (c[i] != 0xA5) { heap_flag("heap-overflow"); return; }
+  }
+}
+static void blk_add(void *p, long id, size_t n)
 {
   if (nblks == capblks) {
     capblks = capblks ? capblks * 2 : 64;
     blks = realloc(blks, capblks * sizeof(*blks));
   }
-  blks[nblks++] = (struct blk){ p, id };
+  blks[nblks++] = (struct blk){ p, id, n };
+  canary_set(p, n);
 }
 static long blk_find(void *p, int remove)
 {
   for (size_t i = 0; i < nblks; i++) {
     if (blks[i].p == p) {
       long id = blks[i].id;
+      canary_check(p, blks[i].n);
       if (remove) blks[i] = blks[--nblks];
       return id;
     }
   }
   return -1;
+}
+void sim_heap_check(void)
+{
+  for (size_t i = 0; i < nblks; i++) canary_check(blks[i].p, blks[i].n);
 }
 
 void *sim_malloc(size_t n)
@@ -123,8 +143,8 @@ void *sim_malloc(size_t n)
   long id = Long_val(caml_callback(*f, Val_long((long) n)));
   install_errno();
   if (id == 0) return NULL;
-  void *p = malloc(n ? n : 1);
-  blk_add(p, id);
+  void *p = malloc(n + CANARY);
+  blk_add(p, id, n);
   return p;
 }
 
@@ -134,8 +154,8 @@ void *sim_calloc(size_t k, size_t n)
   long id = Long_val(caml_callback2(*f, Val_long((long) k), Val_long((long) n)));
   install_errno();
   if (id == 0) return NULL;
-  void *p = calloc(k ? k : 1, n ? n : 1);
-  blk_add(p, id);
+  void *p = calloc(1, k * n + CANARY);
+  blk_add(p, id, k * n);
   return p;
 }
 
@@ -147,8 +167,8 @@ void *sim_realloc(void *old, size_t n)
   install_errno();
   if (id == 0) return NULL;
   if (old != NULL) blk_find(old, 1);
-  void *p = realloc(oid >= 0 ? old : NULL, n ? n : 1);
-  blk_add(p, id);
+  void *p = realloc(oid >= 0 ? old : NULL, n + CANARY);
+  blk_add(p, id, n);
   return p;
 }
 
@@ -168,8 +188,10 @@ char *sim_strdup(const char *s)
   long id = Long_val(caml_callback(*f, caml_copy_string(s)));
   install_errno();
   if (id == 0) return NULL;
-  char *p = strdup(s);
-  blk_add(p, id);
+  size_t n = strlen(s) + 1;
+  char *p = malloc(n + CANARY);
+  memcpy(p, s, n);
+  blk_add(p, id, n);
   return p;
 }
 
@@ -202,6 +224,7 @@ int sim_fcntl(int fd, int cmd, ...)
     case F_GETFL: which = 2; break;
     case F_SETFL: which = 3; break;
     case F_DUPFD_CLOEXEC: which = 5; break;
+    case F_DUPFD: which = 6; break;
     default: which = 4; break;
   }
   CB(f, "sim_fcntl");
